@@ -15,6 +15,7 @@
 //!             anything else -> the answer is `UNSUPPORTED`
 //! `args[1]` world, `;`-separated `id:marked:kind=val+kind=val` (`id:marked:` or `id:marked` = no
 //!             components; marked is 0/1); `-` = none.  Entities are spawned in this order.
+//! `args[3]` optional `dyn`: the components of scene0 are stored as dynamic reflect values.
 //! `args[2]` scene0, `;`-separated `id:kind=val+kind=val` (`id:` = no components); `-` = empty.
 //!             An id that is not in the world gets a fresh empty, unmarked world entity.
 //!
@@ -285,9 +286,12 @@ fn run(args: &[&str]) -> Result<String, String> {
                 entity
             }
         };
+        // `dyn` as a fourth argument: what the scene already holds is stored in dynamic form (`to_dynamic()`, what a scene
+        // assembled by hand or cloned reflectively looks like), not as concrete values
+        let dynamic = args.get(3).copied() == Some("dyn");
         let components = parse_comps(comps)?
             .into_iter()
-            .map(|(kind, val)| boxed_kind(kind, val))
+            .map(|(kind, val)| if dynamic { boxed_kind(kind, val).to_dynamic() } else { boxed_kind(kind, val) })
             .collect();
         scene.entities.push(DynamicEntity { entity, components });
     }
